@@ -102,3 +102,84 @@ pub fn diag_brief(d: &Diag) -> String {
         d.title
     )
 }
+
+// ---------------------------------------------------------------------------------------
+// Layout-independent identity of diagnostics (C13, C14, C15)
+// ---------------------------------------------------------------------------------------
+
+/// (code, instruction index or label, register the diagnostic is about)
+pub type DiagKey = (String, String, i32);
+
+const WRITE_CODES: [&str; 4] =
+    ["dead-assignment", "save-to-zero", "lost-register-value", "overwrite-callee-saved-register"];
+const READ_CODES: [&str; 2] = ["invalid-use-after-call", "invalid-use-before-assignment"];
+
+/// Identify a diagnostic by what it is about rather than by where its text happens to be.
+pub fn diag_key(c: &Case, d: &Diag) -> DiagKey {
+    let line = d.span.start.line;
+    let code = if d.code.is_empty() { d.title.clone() } else { d.code.clone() };
+    if d.file != FILE {
+        return (code, format!("file:{}", d.file), -1);
+    }
+    // a label defined on that line, if the diagnostic sits on it
+    let on_label = c
+        .printed
+        .label_defs
+        .iter()
+        .find(|(_, (l, c0, c1))| *l == line && d.span.start.col <= *c1 + 1 && d.span.end.col >= *c0)
+        .map(|(n, _)| n.clone());
+    match c.printed.line_to_ins.get(&line) {
+        Some(k) if on_label.is_none() || d.span.start.col >= c.printed.ins[*k].mn.0 => {
+            let ins = c.g.prog.instructions()[*k];
+            let reg: i32 = if WRITE_CODES.contains(&code.as_str()) {
+                ins.writes().map_or(-2, i32::from)
+            } else if READ_CODES.contains(&code.as_str()) {
+                match reg_from_name(d.raw_text.trim()) {
+                    Some(r) => i32::from(r),
+                    None => {
+                        let rs: Vec<Reg> = ins.reads().into_iter().filter(|r| *r != 0).collect();
+                        if rs.len() == 1 {
+                            i32::from(rs[0])
+                        } else {
+                            -2
+                        }
+                    }
+                }
+            } else {
+                -1
+            };
+            (code, format!("ins:{k}"), reg)
+        }
+        _ => match on_label {
+            Some(l) => (code, format!("label:{l}"), -1),
+            None => (code, format!("line:{line}"), -1),
+        },
+    }
+}
+
+pub fn diag_multiset(c: &Case, diags: &[Diag]) -> std::collections::BTreeMap<DiagKey, usize> {
+    let mut m = std::collections::BTreeMap::new();
+    for d in diags {
+        *m.entry(diag_key(c, d)).or_insert(0) += 1;
+    }
+    m
+}
+
+/// First key whose multiplicity differs: (key, count in a, count in b).
+pub fn multiset_diff(
+    a: &std::collections::BTreeMap<DiagKey, usize>,
+    b: &std::collections::BTreeMap<DiagKey, usize>,
+) -> Option<(DiagKey, usize, usize)> {
+    for (k, n) in a {
+        let m = b.get(k).copied().unwrap_or(0);
+        if m != *n {
+            return Some((k.clone(), *n, m));
+        }
+    }
+    for (k, m) in b {
+        if !a.contains_key(k) {
+            return Some((k.clone(), 0, *m));
+        }
+    }
+    None
+}
